@@ -3,7 +3,7 @@ package main
 // Scenario family (i): the real Responder (NewResponder / Run / ScheduleAck /
 // ScheduleBadDataResponse / LastError / Stop) against a scripted STEFStream. The harness plays the
 // receiver loop exactly as onStream does (check LastError, "decode" n records, consumer outcome,
-// ScheduleAck(to) / ScheduleBadDataResponse{from,to} / leave on a transient error).
+// ScheduleAck(to) / ScheduleBadDataResponse{from+1,to} / leave on a transient error).
 
 import (
 	"fmt"
@@ -91,7 +91,8 @@ func runResponderCase(name string, sc *script) *caseOut {
 			case "accept":
 				resp.ScheduleAck(uint64(to))
 			case "perm":
-				resp.ScheduleBadDataResponse(verifhooks.BadData{FromID: uint64(from), ToID: uint64(to)})
+				// as onStream does since fix 3f3aa6e: the inclusive range of exactly the batch's records
+				resp.ScheduleBadDataResponse(verifhooks.BadData{FromID: uint64(from + 1), ToID: uint64(to)})
 			default:
 				ex = "trans"
 				return
